@@ -39,13 +39,13 @@ type stopInfo struct {
 
 // monC11: stopped consumers get no updates and are removed after the unbonding period.
 type monC11 struct {
-	w         *World
-	stopped   map[string]*stopInfo
-	phasePrev map[string]phase
-	preEnd    StoreSnap
-	unbonding time.Duration
+	w                *World
+	stopped          map[string]*stopInfo
+	phasePrev        map[string]phase
+	preEnd           StoreSnap
+	unbonding        time.Duration
 	removedThisBlock int
-	causeHint map[string]string
+	causeHint        map[string]string
 }
 
 func init() {
